@@ -172,3 +172,55 @@ func (e *Env) monitorWeightSettled(st *Step, ok bool) {
 		}
 	}
 }
+
+// monitorValidatorSettled (C13): a successful user operation on a position settles the VALIDATOR first — everything
+// x/distribution holds for the module account's delegation to it is withdrawn and indexed — whatever the validator's status
+// (rewards allocated while it was bonded stay withdrawable after it left the active set). Otherwise stake that arrives now
+// shares rewards that accrued before it (not retroactive), and a claim pays less than the accumulated entitlement.
+func (e *Env) monitorValidatorSettled(st *Step, f []string, kind string, ok bool) {
+	if !ok {
+		return
+	}
+	var vals []int
+	denom := -1
+	switch kind {
+	case "delegate", "undelegate", "claim":
+		vals = []int{atoi(f[2])}
+		denom = atoi(f[3])
+	case "redelegate":
+		vals = []int{atoi(f[2]), atoi(f[3])}
+		denom = atoi(f[4])
+	default:
+		return
+	}
+	post := st.PostS
+	// an asset whose rewards have not started takes no part in any split: its positions are not settled (by design)
+	if a := post.Asset(denom); a == nil || post.Time.Cmp(a.Start) < 0 {
+		return
+	}
+	for _, v := range vals {
+		if v < 0 || v >= len(e.Vals) {
+			continue
+		}
+		sv, vi := post.SVal(v), post.Val(v)
+		if sv == nil || sv.ModShares == nil || vi == nil || len(vi.TDS) == 0 {
+			continue
+		}
+		var coins sdk.Coins
+		cctx, _ := e.Ctx.CacheContext()
+		res, _ := protect(func() error {
+			var err error
+			coins, err = e.App.DistrKeeper.WithdrawDelegationRewards(cctx, e.ModAddr, e.Vals[v])
+			return err
+		})
+		if res != "ok" {
+			continue
+		}
+		for _, c := range coins {
+			if c.Amount.IsPositive() {
+				st.fail("C13", "validator_not_settled", "%s succeeded but validator %d still has %s pending for the module account: accrued rewards were not indexed before the position changed", kind, v, c)
+				break
+			}
+		}
+	}
+}
